@@ -469,7 +469,9 @@ func runCase(c c12Case) (f *vh.Failure) {
 				pipe.Feed(rc.Packet{Type: rc.BufResponse, Channel: uint16(j), Status: rc.StatEOM, Body: []byte{rc.TokDone, 0, 0, 0, 0, 0, 0, 0, 0}}.Bytes())
 			}
 			got := 0
-			deadline := time.Now().Add(3 * time.Second)
+			// (patient: with GOMAXPROCS 1 on a machine busy with other work the reader goroutine
+			// can be held back for seconds; a report that is lost never comes)
+			deadline := time.Now().Add(20 * time.Second)
 			for got < len(c.Junk) && time.Now().Before(deadline) {
 				if e := conn.VerifConnErr(); e != nil {
 					got++
